@@ -64,6 +64,10 @@ OneDiagram == /\ pc = "loop" /\ i <= Len(dgms)
 Finish == pc = "loop" /\ i > Len(dgms) /\ pc' = "done" /\ UNCHANGED <<input, islist, keepinf, valinf, normalize, dgms, i, out, err>>
 Next == Listify \/ HandleInf \/ OneDiagram \/ Finish
 Spec == Init /\ [][Next]_vars
+\* liveness: every call returns or raises; the caller's input is never written (C19 at the level of this routine)
+FairSpec == Spec /\ WF_vars(Next)
+Termination == <>(pc = "done")
+InputUntouched == [][input' = input]_vars
 
 OutcomeAsStated == pc = "done" =>
     LET ex == ExpectedOutcome([q \in 1..Len(input) |-> Pool[input[q]]], keepinf, valinf, normalize)
